@@ -190,20 +190,22 @@ func (r *Raft) onAppendEntriesRequest(req *appendReq, c *conn) (rpcResult, error
 
 	// valid req: let us consume entries
 	index, term, syncLog := req.prevLogIndex, req.prevLogTerm, false
-	if req.numEntries > 0 {
-		defer func() {
-			if syncLog {
-				if trace {
-					println(r, "log.Commit", r.lastLogIndex)
-				}
-				r.storage.commitLog(r.lastLogIndex)
-				if r.canCommit(req, index, term) {
-					r.setCommitIndex(index)
-					r.applyCommitted(nil)
-				}
+	defer func() {
+		// success acknowledges every entry up to the last one this request
+		// covers, including entries that were matched rather than appended.
+		// those can still be unflushed, if we were leader when we stored them.
+		// so flush before replying (this is cheap when nothing is dirty)
+		if trace && syncLog {
+			println(r, "log.Commit", r.lastLogIndex)
+		}
+		r.storage.commitLog(r.lastLogIndex)
+		if syncLog {
+			if r.canCommit(req, index, term) {
+				r.setCommitIndex(index)
+				r.applyCommitted(nil)
 			}
-		}()
-	}
+		}
+	}()
 	for req.numEntries > 0 {
 		req.numEntries--
 		if !isEntryBuffered(c.bufr) {
